@@ -13,6 +13,11 @@ Each hand-written recogniser of the model (findIPv4, findMac, findHost, the pass
 the exclusion-pattern matcher, str.replace, the \\w / \\s tables) has its own stream against the
 live pattern strings / objects, so an edited pattern is exercised immediately.
 
+Round 10: specs DECLARED on a RegistryPoint of a fresh SpecSet and collected with dr.run + the Hydration
+persister (stream clean:declared, model cfgPats / declCall / preFilter / specCleanDecl through the driver op
+`cleand`, rm_conf in its odd shapes, keyword lists beyond 10 and 100 entries), and several live cleaners used in
+another order than they were built (clean:interleaved).
+
 Oracle (independent of the implementation's patterns): see `Oracle`.
 """
 import json
@@ -39,6 +44,9 @@ from insights.core.exceptions import ContentException
 from insights.core import dr as insights_dr
 from insights.core import spec_factory as sf
 from insights.core.spec_factory import DatasourceProvider
+from insights.core import filters as insights_filters
+from insights.core.serde import Hydration
+from insights.core.plugins import datasource as insights_datasource
 
 logging.getLogger("insights.cleaner").setLevel(logging.CRITICAL)    # SubIPError warnings of the width mode
 FINDING_MAC = "mac-after-colon"
@@ -186,7 +194,22 @@ def pats_proto(cfg, lines=()):
     return ",".join(out) if out else "-"
 
 
+RM_SHAPES = ["dict-empty-regex", "dict-no-regex", "rm-none", "values-none"]
+
+
 def rm_conf_of(cfg):
+    """the rm_conf handed to Cleaner().  cfg["rm_shape"] (stream clean:declared) selects the shapes of `patterns` that are
+    present but empty / None / a mapping without a usable `regex` entry"""
+    shape = cfg.get("rm_shape")
+    if shape == "rm-none":
+        return None
+    if shape == "values-none":
+        return {"patterns": None, "keywords": None}
+    if shape in ("dict-empty-regex", "dict-no-regex"):
+        rm = {"patterns": {"regex": []} if shape == "dict-empty-regex" else {"other": ["DROPME"]}}
+        if cfg.get("keywords") is not None:
+            rm["keywords"] = list(cfg["keywords"])
+        return rm
     rm = {}
     p = cfg.get("patterns")
     if p:
@@ -338,6 +361,136 @@ def spec_write(kind, c, call, lines, scratch):
             os.remove(dst)
 
 
+# --------------------------------------------------------------------------- declared on a RegistryPoint, collected, persisted
+
+REG_KINDS = ["simple_file", "glob_file", "first_file", "simple_command", "foreach_execute"]
+REG_REL = {"simple_command": "insights_commands/cat", "foreach_execute": "insights_commands/cat"}
+
+
+def reg_rel(case):
+    kind = case["call"]["route"].split(":")[-1]
+    return REG_REL.get(kind) or ("etc/netstat_-neopa" if case["call"]["width"] else "etc/spec_data.conf")
+
+
+def registry_write(kind, c, case, lines, scratch):
+    """the way a collection does it: a SpecSet with a RegistryPoint carrying the DECLARATION (no_obfuscate / no_redact /
+    filterable), a subclass registering the implementation datasource under it (SpecSetMeta copies the declaration),
+    filters added to the point, dr.run under a HostContext with the cleaner in the broker and the Hydration persister as
+    observer (serializer -> provider.write()).  Returns ("ok", text of the one file written) | ("empty", None) |
+    ("raised:<Class>", None)"""
+    decl = case["decl"]
+    root = os.path.join(scratch, "root")
+    shutil.rmtree(root, ignore_errors=True)
+    os.makedirs(os.path.join(root, "etc"))
+    rel = "/" + reg_rel(case) if kind in ("simple_file", "glob_file", "first_file") else "/etc/spec_data.conf"
+    src = os.path.join(root, rel.lstrip("/"))
+    with open(src, "w", encoding="utf-8", newline="") as fh:
+        fh.write("\n".join(lines) + "\n")
+    kw = {}
+    if decl["no_obfuscate"] is not None:
+        kw["no_obfuscate"] = list(decl["no_obfuscate"])
+    if decl["no_redact"] is not None:
+        kw["no_redact"] = decl["no_redact"]
+    if decl["filterable"]:
+        kw["filterable"] = True
+    if kind == "foreach_execute":
+        kw["multi_output"] = True
+    prov = None
+    if kind == "simple_file":
+        impl = sf.simple_file(rel, context=HostContext)
+    elif kind == "glob_file":
+        impl = sf.glob_file(os.path.dirname(rel) + "/" + os.path.basename(rel)[:4] + "*", context=HostContext)
+        kw["multi_output"] = True
+    elif kind == "first_file":
+        impl = sf.first_file(["/etc/not_there.conf", rel], context=HostContext)
+    elif kind == "simple_command":
+        impl = sf.simple_command("/bin/cat %s" % src, context=HostContext)
+    elif kind == "foreach_execute":
+        def src_paths(broker):
+            return [src]
+        prov = insights_datasource(HostContext)(src_paths)
+        impl = sf.foreach_execute(prov, "/bin/cat %s", context=HostContext)
+    else:
+        raise ValueError(kind)
+    meta = type(sf.SpecSet)
+    # the OTHER specs of the same SpecSet, collected in the same run with the same cleaner (declared before or after)
+    points, impls, sib_filters = {}, {}, []
+    sibs = case.get("siblings") or []
+    for i, sb in enumerate(sibs):
+        skw = {}
+        if sb["no_obfuscate"] is not None:
+            skw["no_obfuscate"] = list(sb["no_obfuscate"])
+        if sb["no_redact"] is not None:
+            skw["no_redact"] = sb["no_redact"]
+        if sb["filters"]:
+            skw["filterable"] = True
+        with open(os.path.join(root, "etc", "sib%d.conf" % i), "w", encoding="utf-8", newline="") as fh:
+            fh.write("\n".join(sb["lines"]) + "\n")
+        entry = ("sib%d" % i, sf.RegistryPoint(**skw), sf.simple_file("/etc/sib%d.conf" % i, context=HostContext), sb)
+        if sb["before"]:
+            points[entry[0]], impls[entry[0]] = entry[1], entry[2]
+        sib_filters.append(entry)
+    points["point"], impls["point"] = sf.RegistryPoint(**kw), impl
+    for name, pt, im, sb in sib_filters:
+        if not sb["before"]:
+            points[name], impls[name] = pt, im
+    pts = list(points.values())           # (the metaclass adds its own entries to the dictionary)
+    Specs = meta("RegSpecs", (sf.SpecSet,), points)
+    Impl = meta("RegImpl", (Specs,), impls)
+    for name, pt, im, sb in sib_filters:
+        for key, n in (sb["filters"] or []):
+            insights_filters.add_filter(pt, [key], n)
+    for key, n in (decl["filters"] or []):
+        insights_filters.add_filter(Specs.point, [key], n)
+    ctx = HostContext(root=root)
+    broker = insights_dr.Broker()
+    broker[HostContext] = ctx
+    broker["cleaner"] = c
+    out = os.path.join(scratch, "archive")
+    shutil.rmtree(out, ignore_errors=True)
+    hyd = Hydration(out, ctx)
+    broker.add_observer(hyd.make_persister(set(pts)))
+    graph = {}
+    for pt in pts:
+        graph.update(insights_dr.get_dependency_graph(pt))
+    insights_dr.run(graph, broker)
+    # what was persisted for THE point (the siblings write etc/sib<i>.conf)
+    files = []
+    for d, _, names in os.walk(os.path.join(out, "data")):
+        files += [os.path.join(d, n) for n in names if not re.match(r"sib\d+\.conf$", n)]
+    errors = []
+    mdir = os.path.join(out, "meta_data")
+    if os.path.isdir(mdir):
+        for n in sorted(os.listdir(mdir)):
+            if not n.endswith(".point.json"):
+                continue
+            try:
+                with open(os.path.join(mdir, n), encoding="utf-8") as fh:
+                    doc = json.load(fh)
+                errors += [str(e) for e in (doc.get("errors") or [])] if isinstance(doc, dict) else ["meta-data-shape"]
+            except ValueError:
+                errors.append("meta-data-unreadable")
+    for comp in (Specs.point, Impl.point):
+        for ex in broker.exceptions.get(comp, []):
+            tb = broker.tracebacks.get(ex)
+            if tb is not None and str(tb) not in errors:
+                errors.append(str(tb))
+    if len(files) == 1 and not errors:
+        with open(files[0], "r", encoding="utf-8", newline="") as fh:
+            return "ok", fh.read()
+    # nothing collected: "Empty after cleaning" / "Empty (after filtering)", or the grep of the pre-filter of a COMMAND found no
+    # line (exit status 1 of the pipeline -> CalledProcessError) — the model says whether that is what had to happen
+    if not files and errors and all(("ContentException" in e and "Empty" in e) or "CalledProcessError" in e for e in errors):
+        return "empty", None
+    if not files and not errors:
+        return "raised:NothingPersisted", None
+    if not files and case["call"]["width"] and all("SubIPError" in e for e in errors):
+        return "err:index", None          # the one exception the cleaner raises by design (width mode)
+    last = [e.strip().split("\n")[-1] for e in errors if e.strip()]
+    cls = (last[-1].split(":")[0].split(".")[-1] if last else "") or "Error"
+    return "raised:%s%s" % (cls, "+%dfiles" % len(files) if files else ""), None
+
+
 # --------------------------------------------------------------------------- implementation adapter
 
 class Run(object):
@@ -354,13 +507,38 @@ class Run(object):
         self.provider_class = None
 
 
-def run_impl(case, scratch):
+def run_group(group, scratch):
+    """several LIVE cleaners (as the client has: the one of the collection, the one of the facts cleaning): all cleaners of
+    the group are built first, then used in the given order; returns the Run of every member"""
+    built = []
+    for m in group["cases"]:
+        try:
+            built.append(make_cleaner(m["cfg"]))
+        except Exception as e:
+            built.append(e)
+    res = {}
+    for k in group["order"]:
+        res[k] = run_impl(group["cases"][k], scratch, c=built[k])
+    return [res[k] for k in range(len(group["cases"]))]
+
+
+def run_any(case, scratch):
+    g = case.get("interleaved")
+    if g:
+        return run_group(g, scratch)[g["k"]]
+    return run_impl(case, scratch)
+
+
+def run_impl(case, scratch, c=None):
     cfg, call, lines = case["cfg"], case["call"], case["lines"]
     r = Run()
     # Everything the implementation does — construction included — is behaviour under test: an exception that escapes
     # it becomes the canonical outcome `raised:<ExceptionClass>` and goes to compare / oracle like any other outcome.
     try:
-        c = make_cleaner(cfg)
+        if isinstance(c, Exception):
+            raise c
+        if c is None:
+            c = make_cleaner(cfg)
     except Exception as e:
         r.raised = type(e).__name__
         r.out = "raised:" + r.raised
@@ -420,6 +598,22 @@ def run_impl(case, scratch):
             finally:
                 if os.path.exists(dst):
                     os.remove(dst)
+        elif route.startswith("spec:reg:"):
+            st, text = registry_write(route[9:], c, case, lines, scratch)
+            if st == "ok":
+                res = text.split("\n")
+                r.lines_out = res
+                r.out = "\t".join(["ok"] + [item(l) for l in res])
+            elif st == "empty":
+                r.lines_out = []
+                r.out = "empty"
+            elif st == "err:index":
+                r.lines_out = None
+                r.out = st
+            else:
+                r.raised = st[7:]
+                r.out = st
+                r.lines_out = None
         elif route.startswith("spec:"):
             try:
                 r.provider_class, text = spec_write(route[5:], c, call, lines, scratch)
@@ -466,8 +660,39 @@ def run_impl(case, scratch):
     return r
 
 
+def proto_declared(case, r):
+    """`cleand`: the model computes the exclusion list from the SHAPE of rm_conf['patterns'] (cfgPats) and the call from the
+    DECLARATION of the registry point (declCall, preFilter, specCleanDecl)"""
+    cfg, call, decl = case["cfg"], case["call"], case["decl"]
+    flags = "".join("1" if b else "0" for b in (cfg["obfuscate"], cfg["hostname"], cfg["mac"], cfg["ipv6"],
+                                               bool(decl["no_redact"]), decl["filterable"], decl["filterable"]))
+    shape = cfg.get("rm_shape")
+    p = cfg.get("patterns")
+    keys, pats = "-", "-"
+    if shape == "dict-empty-regex":
+        sh, keys = "D", items(["regex"])
+    elif shape == "dict-no-regex":
+        sh, keys = "K", items(["other"])
+    elif shape in ("rm-none", "values-none") or p is None:
+        sh = "A"
+    elif "plain" in p:
+        sh, pats = "L", pats_proto(cfg, case["lines"])
+    else:
+        sh, keys, pats = "D", items(["regex"]), pats_proto(cfg, case["lines"])
+    fl = decl["filters"] or []
+    filt = ",".join("=%s:%d" % (enc(k), n) for k, n in fl) if fl else "-"
+    fields = ["cleand", flags, enc(cfg["fqdn"]), "N" if decl["no_obfuscate"] is None else items(decl["no_obfuscate"]),
+              enc(reg_rel(case)), sh, keys, pats, items(cfg["keywords"] or []), filt, table(r.tables["ip"]),
+              table(r.tables["host"]), table(r.tables["mac"]), table(r.tables["ipv6"]), str(cleaner_mod.MAX_LINE_LENGTH)]
+    for l, f6 in zip(case["lines"], r.v6):
+        fields.append("/".join([item(l)] + [item(x) for x in f6]))
+    return "\t".join(fields)
+
+
 def proto_line(case, r):
     cfg, call = case["cfg"], case["call"]
+    if call["route"].startswith("spec:reg:"):
+        return proto_declared(case, r)
     mode = "P" if call["route"].startswith("spec:") else {"content": "L", "file": "L", "single": "S", "provider": "P"}[call["route"]]
     flags = "".join("1" if b else "0" for b in (cfg["obfuscate"], cfg["hostname"], cfg["mac"], cfg["ipv6"],
                                                call["no_redact"], call["width"]))
@@ -1403,6 +1628,107 @@ def g_case(rng, width_ok=True):
     return {"cfg": cfg, "call": call, "lines": lines, "markers": markers}
 
 
+def g_declared_case(rng, kind):
+    """a spec DECLARED on a registry point and collected (stream clean:declared): the declaration is the generated part —
+    no_obfuscate absent / [] / what most points declare / a subset / everything, no_redact absent / False / True,
+    filterable with 1-3 filters of small and large max_match; rm_conf in its odd shapes; keyword lists beyond 10 and 100
+    entries, with duplicates and blanks around"""
+    base = g_case(rng, width_ok=False)
+    cfg = base["cfg"]
+    cfg["ipv6"] = False
+    cfg.pop("sys", None)
+    k = rng.randrange(12)
+    if k < 3:
+        n = rng.choice([11, 12, 13, 21, 102, 102, 130])
+        name = lambda i: "k%03dz" % i                  # no name is part of another one: each keyword is cleared by ITS OWN step
+        pool = KEYWORDS[:8] + [name(i) for i in range(n)]
+        kws = [rng.choice(pool) if i < n - 3 and rng.random() < (0.3 if n < 100 else 0.04) else name(i) for i in range(n)]
+        if rng.random() < 0.5:
+            j = rng.randrange(n)
+            kws[j] = " " + kws[j] + "\t"
+        cfg["keywords"] = kws
+    k = rng.randrange(20)
+    if k < 4:
+        cfg["patterns"] = None
+        cfg["rm_shape"] = RM_SHAPES[k]
+        if cfg["rm_shape"] in ("rm-none", "values-none"):
+            cfg["keywords"] = None
+    elif k < 8:
+        ps = [rng.choice(PLAIN_PATS + [" ", "  ", "", "\t"]) for _ in range(rng.choice([1, 2, 3, 4]))]
+        if rng.random() < 0.5:
+            ps.insert(rng.randrange(len(ps) + 1), rng.choice(ps))          # a duplicate
+        cfg["patterns"] = {"plain": ps}
+    elif k < 10 and cfg.get("patterns") and "regex" in cfg["patterns"] and all("re" not in q for q in cfg["patterns"]["regex"]):
+        rxs = cfg["patterns"]["regex"]
+        rxs.insert(rng.randrange(len(rxs) + 1), rng.choice(rxs))            # a duplicate expression
+    kws = cfg["keywords"] or []
+    late = [x for x in kws[9:]]
+    lines = []
+    for _ in range(rng.choice([1, 2, 3, 4, 6])):
+        l = g_line(rng, cfg, kws)
+        if late and rng.random() < 0.6:
+            l += rng.choice([" ", ",", "="]) + rng.choice(late if rng.random() < 0.5 else late[-3:]).strip() + rng.choice(["", " x", "1"])
+        if rng.random() < 0.25:
+            l += " " + rng.choice(["regex", "other", "DROPME", " ", "regexp other"])
+        l = l.replace("\n", " ").replace("\r", " ").encode("ascii", "replace").decode("ascii")
+        lines.append(l if l.strip() else "x" + l)
+    j = rng.randrange(10)
+    if j < 3:
+        no_obf = None
+    elif j == 3:
+        no_obf = []
+    elif j < 6:
+        no_obf = list(REGISTRY_DEFAULT)
+    elif j == 6:
+        no_obf = list(NAMES)
+    else:
+        no_obf = [n for n in NAMES if rng.random() < 0.35]
+    no_red = rng.choice([None, None, False, False, True])
+    filt = None
+    if rng.random() < 0.3:
+        keys = []
+        for _ in range(rng.choice([1, 1, 2, 3])):
+            key = rng.choice(WORDS + ["1", "a", ":", "password", "x"])
+            if key not in keys:
+                keys.append(key)
+        filt = [[key, rng.choice([1, 1, 2, 10000])] for key in keys]
+    width = kind in ("simple_file", "glob_file", "first_file") and rng.random() < 0.08
+    sibs = []
+    for _ in range(rng.choice([0, 1, 1, 2])):
+        sibs.append({"no_obfuscate": rng.choice([None, [], list(REGISTRY_DEFAULT), list(NAMES), ["keyword", "password"], ["ip"]]),
+                     "no_redact": rng.choice([None, False, True, True]),
+                     "filters": [[rng.choice(WORDS), 1]] if rng.random() < 0.3 else None,
+                     "before": rng.random() < 0.6,
+                     "lines": [(g_line(rng, cfg, kws).replace("\n", " ").replace("\r", " ").encode("ascii", "replace").decode("ascii") or "x")
+                               for _ in range(rng.choice([1, 2]))]})
+    decl = {"no_obfuscate": no_obf, "no_redact": no_red, "filterable": filt is not None, "filters": filt}
+    call = {"no_obfuscate": list(no_obf or []), "no_redact": bool(no_red), "allowlist": dict((a, b) for a, b in filt) if filt else None,
+            "width": width, "route": "spec:reg:" + kind}
+    return {"cfg": cfg, "call": call, "decl": decl, "lines": lines, "markers": False, "siblings": sibs}
+
+
+def g_interleaved(rng, gid):
+    """2-3 cleaners of DIFFERENT configurations alive at the same time, used in an order other than the order of building"""
+    n = rng.choice([2, 2, 3])
+    members = []
+    while len(members) < n:
+        c = g_case(rng, width_ok=False)
+        if c["call"]["route"] in ("content", "single", "provider") and in_domain(c):
+            c["cfg"].pop("sys", None)
+            members.append(c)
+    if members[0]["cfg"].get("patterns") and rng.random() < 0.7:
+        # the second cleaner has the other form of exclusion list / none, another keyword list
+        q = members[1]["cfg"]
+        if "plain" in members[0]["cfg"]["patterns"]:
+            q["patterns"] = {"regex": [g_rx(rng)]}
+        else:
+            q["patterns"] = rng.choice([None, {"plain": [rng.choice(PLAIN_PATS)]}])
+    order = list(range(n))
+    order.reverse() if rng.random() < 0.6 else rng.shuffle(order)
+    bare = [{"cfg": m["cfg"], "call": m["call"], "lines": m["lines"], "markers": m["markers"]} for m in members]
+    return [dict(m, interleaved={"id": gid, "k": k, "order": order, "cases": bare}) for k, m in enumerate(bare)]
+
+
 def in_domain(case):
     cfg = case["cfg"]
     strs = list(case["lines"]) + [cfg["fqdn"]] + list(cfg["keywords"] or [])
@@ -1951,12 +2277,21 @@ def canon_model(case, m):
     return m
 
 
-def run_cases(chk, cases, stream):
+def run_cases(chk, cases, stream, prefix_replay=False):
+    """prefix_replay: the cases of the stream share process-wide state of the implementation (component registries); the
+    replay of a failure is then the stream up to and including the failing case, run in order in a fresh process"""
     scratch = tempfile.mkdtemp(prefix="c08-")
     try:
         runs_, lines = [], []
+        done = {}
         for case in cases:
-            r = run_impl(case, scratch)
+            g = case.get("interleaved")
+            if g:
+                if g["id"] not in done:
+                    done[g["id"]] = run_group(g, scratch)
+                r = done[g["id"]][g["k"]]
+            else:
+                r = run_impl(case, scratch)
             runs_.append(r)
             lines.append(proto_line(case, r))
     finally:
@@ -1965,7 +2300,7 @@ def run_cases(chk, cases, stream):
     model = [canon_model(c, m) for c, m in zip(cases, model)]
     impl = [r.out for r in runs_]
     chk.compare(stream, cases, impl, model)
-    for case, r, m in zip(cases, runs_, model):
+    for idx, (case, r, m) in enumerate(zip(cases, runs_, model)):
         sepr = "" if case["call"]["route"] == "file" else "\x00"
         changed = r.lines_out is None or sepr.join(r.lines_out) != sepr.join(case["lines"])
         chk.case(json.dumps(case, sort_keys=True), nontrivial=changed)
@@ -1973,7 +2308,8 @@ def run_cases(chk, cases, stream):
             chk.count(t)
         for clause, text, fid in Oracle(case, r).check():
             chk.count("oracle:" + clause + (":" + fid if fid else ""))
-            chk.failure("%s: %s" % (clause, text), {"op": "clean", "case": case}, finding=fid)
+            payload = {"op": "prefix", "cases": cases[:idx + 1]} if prefix_replay else {"op": "clean", "case": case}
+            chk.failure("%s: %s" % (clause, text), payload, finding=fid)
     return runs_, model
 
 
@@ -2022,13 +2358,16 @@ OUTSIDE_NOTATIONS = ["password='hunter2'", "Password=hunter2", "password={hunter
 
 def run(chk):
     quick = chk.tier == "quick"
-    n_cases = 6000 if quick else 60000
-    n_rec = 3000 if quick else 30000
+    n_cases = 5000 if quick else 60000
+    n_rec = 2500 if quick else 30000
     chk.rule = ("a case = Cleaner configuration (all combinations of obfuscate / hostname / mac / ipv6 switches, keyword list, "
                 "plain or regular-expression exclusion list, system host name) x call (no_obfuscate subset, no_redact, allow list, "
                 "width mode; entry point clean_content list / single string, clean_file, DatasourceProvider.write) x 1-6 lines "
                 "built from addresses, MACs, host names, keywords, password notations, pattern words placed at line start/end, "
                 "next to punctuation and non-ASCII letters, repeated, one a prefix of another, followed by ports, inside longer tokens; "
+                "plus: declarations on a RegistryPoint (no_obfuscate absent / [] / subsets / all, no_redact absent / False / True, filterable with filters, "
+                "sibling points) collected through dr.run and persisted, rm_conf shapes (blank / empty / duplicate patterns, mapping with empty or missing regex, None), "
+                "11-102 keywords, groups of 2-3 live cleaners used out of building order; "
                 "non-trivial = the cleaned content differs from the input")
     chk.assumptions = [
         "Python `re` on the patterns of cleaner/*.py: hand-written recognisers, validated per run against the live pattern strings (streams recogniser:*)",
@@ -2097,6 +2436,23 @@ def run(chk):
     chk.extra["spec_kinds_driven"] = SPEC_KINDS + ["DatasourceProvider (route provider of the main stream)"]
     chk.extra["spec_kinds_not_driven"] = SPEC_NOT_DRIVEN
 
+    # ---- declared on a RegistryPoint, collected with dr.run, persisted by the Hydration observer
+    dc = []
+    for kind in REG_KINDS:
+        while sum(1 for c in dc if c["call"]["route"] == "spec:reg:" + kind) < (40 if quick else 600):
+            c = g_declared_case(chk.rng, kind)
+            if in_domain(c):
+                dc.append(c)
+    druns, _ = run_cases(chk, dc, "clean:declared", prefix_replay=True)
+    chk.sample({"declared": dc[0]["decl"], "rm_conf": rm_conf_of(dc[0]["cfg"]), "lines": dc[0]["lines"], "written": druns[0].lines_out})
+    chk.extra["declared_kinds_driven"] = REG_KINDS
+
+    # ---- several live cleaners used in another order than they were built
+    il = []
+    for gid in range(150 if quick else 3000):
+        il += g_interleaved(chk.rng, gid)
+    run_cases(chk, il, "clean:interleaved")
+
     # ---- long lines below the limit, tokens straddling multiples of 1024 … 65536
     if quick:
         long_line_stream(chk, 12, [4200, 8300, 17000, 66000])
@@ -2136,7 +2492,7 @@ def replay_one(case):
     """re-run one cleaning case: 1 if the oracle fails or model and implementation differ"""
     scratch = tempfile.mkdtemp(prefix="c08-")
     try:
-        r = run_impl(case, scratch)
+        r = run_any(case, scratch)
     finally:
         shutil.rmtree(scratch, ignore_errors=True)
     print("impl :", r.out.split("\t")[0], r.lines_out)
@@ -2238,6 +2594,21 @@ def replay(data):
                 print("  fresh cleaner, same call:", [dec(x[1:]) if x.startswith("=") else x for x in r.fresh.split("\t")])
         fails = history_fails(hist, res)
         for k, clause, text, fid in fails:
+            print("ORACLE %s: %s%s" % (clause, text[:1500], "  [known finding %s]" % fid if fid else ""))
+        bad = bool(fails)
+    elif c.get("op") == "prefix":
+        # the stream up to the failing case, in order, in this fresh process; the verdict is that of the LAST case
+        scratch = tempfile.mkdtemp(prefix="c08-")
+        try:
+            rs = [run_any(x, scratch) for x in c["cases"]]
+        finally:
+            shutil.rmtree(scratch, ignore_errors=True)
+        last, r = c["cases"][-1], rs[-1]
+        print("after %d earlier cases of the stream: declaration %r siblings %r" % (len(rs) - 1, last.get("decl"), [(sb["no_obfuscate"], sb["no_redact"]) for sb in last.get("siblings") or []]))
+        print("lines:", last["lines"])
+        print("impl :", r.out.split("\t")[0], r.lines_out)
+        fails = Oracle(last, r).check()
+        for clause, text, fid in fails:
             print("ORACLE %s: %s%s" % (clause, text[:1500], "  [known finding %s]" % fid if fid else ""))
         bad = bool(fails)
     elif c.get("op") == "rxbad":
